@@ -22,6 +22,7 @@ import (
 	"time"
 
 	"github.com/idena-network/idena-go/blockchain/types"
+	"github.com/idena-network/idena-go/blockchain/validation"
 	"github.com/idena-network/idena-go/common"
 	"github.com/idena-network/idena-go/config"
 	"github.com/idena-network/idena-go/core/ceremony"
@@ -284,6 +285,35 @@ func c01gen(c *hx.Ctx, p c01params) error {
 				}
 			}
 		}
+		// a second kind of side block, in the after-long-session period: the abandoned block differs from the canonical one by
+		// an ordinary transfer only, so both branches hold the same ceremony transactions and a node on the side block can
+		// evaluate the canonical continuation through the validation-finishing block as a fork (see c01follow).
+		if !p.TzScenario && n.App.State.ValidationPeriod() == 4 && r.Intn(3) == 0 {
+			hasCer := false
+			for _, tx := range p1.Block.Body.Transactions {
+				hasCer = hasCer || isCeremonyTx(tx.Type)
+			}
+			from := 1 + r.Intn(len(w.Keys)-1)
+			if !hasCer && n.App.State.GetBalance(w.Addrs[from]).Cmp(chainfx.Dna(500)) > 0 {
+				to := w.Addrs[0]
+				stx := h.S.Sign(n, from, &types.Transaction{Type: types.SendTx, To: &to, Amount: chainfx.Dna(1)})
+				if n.Pool.AddExternalTxs(validation.InboundTx, stx) == nil {
+					pS, err := n.Propose()
+					n.Pool.Remove(stx)
+					if err == nil && pS != nil {
+						has := false
+						for _, tx := range pS.Block.Body.Transactions {
+							has = has || tx.Hash() == stx.Hash()
+						}
+						if has {
+							raw, _ := pS.Block.ToBytes()
+							fmt.Fprintln(bf, "S "+hex.EncodeToString(raw))
+							c.Hit("side-block:transfer-only:period-4")
+						}
+					}
+				}
+			}
+		}
 		if err := n.Add(p1.Block); err != nil {
 			c.Fail("C01:own-block-rejected", fmt.Sprintf("height %d: %v", p1.Block.Height(), err), p)
 			return nil
@@ -317,6 +347,40 @@ func c01gen(c *hx.Ctx, p c01params) error {
 }
 
 // child: follower in some environment
+// c01ahead: the canonical blocks that follow line `after` of the blocks file (side blocks skipped), up to `max` of them and
+// not beyond the first identity-update block (a fork block of that kind needs a certificate).
+func c01ahead(file string, after, max int) []*types.Block {
+	f, err := os.Open(file)
+	if err != nil {
+		return nil
+	}
+	defer f.Close()
+	sc := bufio.NewScanner(f)
+	sc.Buffer(make([]byte, 1<<20), 64<<20)
+	var res []*types.Block
+	ln := 0
+	for sc.Scan() && len(res) < max {
+		ln++
+		line := sc.Text()
+		if ln <= after || strings.HasPrefix(line, "S ") {
+			continue
+		}
+		raw, err := hex.DecodeString(line)
+		if err != nil {
+			break
+		}
+		b := new(types.Block)
+		if b.FromBytes(raw) != nil {
+			break
+		}
+		res = append(res, b)
+		if b.Header.Flags().HasFlag(types.IdentityUpdate) {
+			break
+		}
+	}
+	return res
+}
+
 // c01progress is what a follower process leaves for its successor.
 type c01progress struct {
 	Next int  `json:"next"` // lines consumed
@@ -426,6 +490,49 @@ func c01follow(c *hx.Ctx, p c01params) error {
 			}
 			c.Line(blkLine(w, blk), "ok")
 			c.Line("ans", ansLine(w, n))
+			// standing on the abandoned branch, the node evaluates the canonical continuation as a fork (the real
+			// ValidateSubChain on a check state of the common block): the same blocks must evaluate to the same roots as on a
+			// node that is on the canonical chain.  No certificates are supplied, so the only acceptable refusals are the two
+			// about a missing certificate, which come after the blocks themselves were evaluated.
+			if ahead := c01ahead(p.BlocksFile, lineNo, 24); len(ahead) > 0 {
+				var bundles []types.BlockBundle
+				for _, ab := range ahead {
+					bundles = append(bundles, types.BlockBundle{Block: ab})
+				}
+				var verr error
+				func() {
+					defer func() {
+						if rec := recover(); rec != nil {
+							verr = fmt.Errorf("panic: %v", rec)
+						}
+					}()
+					// the fork reaches the node when its last block exists
+					chainfx.SetTime(time.Unix(ahead[len(ahead)-1].Header.Time()+int64(p.SkewSec), 0))
+					verr = n.Chain.ValidateSubChain(blk.Height()-1, bundles)
+					chainfx.SetTime(time.Unix(blk.Header.Time()+int64(p.SkewSec), 0))
+				}()
+				c.Hit("fork-evaluations-from-side-branch")
+				throughFinish := bundles[len(bundles)-1].Block.Header.Flags().HasFlag(types.ValidationFinished)
+				sideCer := false
+				for _, tx := range blk.Body.Transactions {
+					sideCer = sideCer || isCeremonyTx(tx.Type)
+				}
+				if verr == nil || !(strings.Contains(verr.Error(), "cert is missing") || strings.Contains(verr.Error(), "should have a certificate")) {
+					sideFinished := blk.Header.Flags().HasFlag(types.ValidationFinished) // the node's own branch has already closed the epoch
+					if throughFinish && (sideCer || sideFinished) && verr != nil && strings.Contains(verr.Error(), "invalid block roots") {
+						// known finding F37: the epoch is evaluated with the answers the node collected on ITS branch (the side block
+						// carries a ceremony transaction the canonical chain does not have)
+						c.Fail("C01:fork-through-validation-finished-evaluated-with-own-branch-answers", fmt.Sprintf("node on side block %d (which carries a ceremony transaction the canonical chain lacks, or is itself a validation-finishing block) evaluating the %d canonical blocks up to the validation-finishing block %d as a fork: %v",
+							blk.Height(), len(bundles), bundles[len(bundles)-1].Block.Height(), verr), p)
+					} else {
+						c.Fail("C01:fork-evaluated-differently-from-side-branch:"+p.Label, fmt.Sprintf("node on side block %d evaluating the %d canonical blocks from height %d as a fork: %v", blk.Height(), len(bundles), blk.Height(), verr), p)
+						return nil
+					}
+				}
+				if throughFinish && !sideCer && !blk.Header.Flags().HasFlag(types.ValidationFinished) {
+					c.Hit("fork-evaluations-through-validation-finished:same-ceremony-content")
+				}
+			}
 			if _, err := n.Chain.ResetTo(blk.Height() - 1); err != nil {
 				c.Fail("C01:reset-failed:"+p.Label, err.Error(), p)
 				return nil
